@@ -395,6 +395,17 @@ package transform
 //@   requires offok(zBaseOffset) && 0 <= zBaseExponent && zBaseExponent <= 35
 //@   ensures [err-zoom] !(1 <= outputQuadkeyZoom && outputQuadkeyZoom <= 31 && 0 <= outputAltitudekeyZoom && outputAltitudekeyZoom <= 35) ==> r1 != nil && len(r0) == 0
 //@   ensures [err-malformed] (exists k :: 0 <= k && k < len(extendedSpatialIDs) && !isext(extendedSpatialIDs[k])) && (1 <= outputQuadkeyZoom && outputQuadkeyZoom <= 31 && 0 <= outputAltitudekeyZoom && outputAltitudekeyZoom <= 35) ==> r1 != nil
+//@   ensures [no-pair-twice] r1 == nil ==> (forall g1, j1, g2, j2 :: 0 <= g1 && g1 < len(r0) && 0 <= j1 && j1 < len(r0[g1].innerIDList) && 0 <= g2 && g2 < len(r0) && 0 <= j2 && j2 < len(r0[g2].innerIDList) && (g1 != g2 || j1 != j2) ==> r0[g1].innerIDList[j1] != r0[g2].innerIDList[j2])
+//@   loop 0 invariant [pairs-distinct] (forall g1, j1, g2, j2 :: 0 <= g1 && g1 < len(extendedSpatialIDToQuadkeyAndAltitudekey) && 0 <= j1 && j1 < len(extendedSpatialIDToQuadkeyAndAltitudekey[g1].innerIDList) && 0 <= g2 && g2 < len(extendedSpatialIDToQuadkeyAndAltitudekey) && 0 <= j2 && j2 < len(extendedSpatialIDToQuadkeyAndAltitudekey[g2].innerIDList) && (g1 != g2 || j1 != j2) ==> extendedSpatialIDToQuadkeyAndAltitudekey[g1].innerIDList[j1] != extendedSpatialIDToQuadkeyAndAltitudekey[g2].innerIDList[j2])
+//@   loop 0 invariant [pairs-recorded] (forall g, j :: 0 <= g && g < len(extendedSpatialIDToQuadkeyAndAltitudekey) && 0 <= j && j < len(extendedSpatialIDToQuadkeyAndAltitudekey[g].innerIDList) ==> has(duplicate, extendedSpatialIDToQuadkeyAndAltitudekey[g].innerIDList[j]))
+//@   loop 2 invariant [pairs-recorded] (forall g, j :: 0 <= g && g < len(extendedSpatialIDToQuadkeyAndAltitudekey) && 0 <= j && j < len(extendedSpatialIDToQuadkeyAndAltitudekey[g].innerIDList) ==> has(duplicate, extendedSpatialIDToQuadkeyAndAltitudekey[g].innerIDList[j]))
+//@   loop 2 invariant [current-recorded] (forall j :: 0 <= j && j < len(idList) ==> has(duplicate, idList[j]))
+//@   loop 2 invariant [current-new] (forall j, g, j2 :: 0 <= j && j < len(idList) && 0 <= g && g < len(extendedSpatialIDToQuadkeyAndAltitudekey) && 0 <= j2 && j2 < len(extendedSpatialIDToQuadkeyAndAltitudekey[g].innerIDList) ==> extendedSpatialIDToQuadkeyAndAltitudekey[g].innerIDList[j2] != idList[j])
+//@   loop 2 invariant [current-distinct] (forall a, b :: 0 <= a && a < b && b < len(idList) ==> idList[a] != idList[b])
+//@   loop 3 invariant [pairs-recorded] (forall g, j :: 0 <= g && g < len(extendedSpatialIDToQuadkeyAndAltitudekey) && 0 <= j && j < len(extendedSpatialIDToQuadkeyAndAltitudekey[g].innerIDList) ==> has(duplicate, extendedSpatialIDToQuadkeyAndAltitudekey[g].innerIDList[j]))
+//@   loop 3 invariant [current-recorded] (forall j :: 0 <= j && j < len(idList) ==> has(duplicate, idList[j]))
+//@   loop 3 invariant [current-new] (forall j, g, j2 :: 0 <= j && j < len(idList) && 0 <= g && g < len(extendedSpatialIDToQuadkeyAndAltitudekey) && 0 <= j2 && j2 < len(extendedSpatialIDToQuadkeyAndAltitudekey[g].innerIDList) ==> extendedSpatialIDToQuadkeyAndAltitudekey[g].innerIDList[j2] != idList[j])
+//@   loop 3 invariant [current-distinct] (forall a, b :: 0 <= a && a < b && b < len(idList) ==> idList[a] != idList[b])
 //@   ensures [group-parameters] r1 == nil ==> (forall g :: 0 <= g && g < len(r0) ==> r0[g] != nil && r0[g].quadkeyZoom == outputQuadkeyZoom && r0[g].altitudekeyZoom == outputAltitudekeyZoom && r0[g].zBaseExponent == zBaseExponent && r0[g].zBaseOffset == zBaseOffset)
 //@   loopframe
 //@   loop 0 invariant forall g :: 0 <= g && g < len(extendedSpatialIDToQuadkeyAndAltitudekey) ==> extendedSpatialIDToQuadkeyAndAltitudekey[g] != nil && extendedSpatialIDToQuadkeyAndAltitudekey[g].quadkeyZoom == outputQuadkeyZoom && extendedSpatialIDToQuadkeyAndAltitudekey[g].altitudekeyZoom == outputAltitudekeyZoom && extendedSpatialIDToQuadkeyAndAltitudekey[g].zBaseExponent == zBaseExponent && extendedSpatialIDToQuadkeyAndAltitudekey[g].zBaseOffset == zBaseOffset
